@@ -65,16 +65,18 @@ def fixed_kernels():
         t0 = B.let(Bin("/", a, b))
         t1 = B.let(Bin("/", b, a))
         t2 = B.let(Bin("+", t0, t1))
-        t3 = B.let(Bin("*", t2, a))
-        ks.append(B.done(t3))
+        t3 = B.let(Bin("*", t0, a))
+        t4 = B.let(Bin("-", t3, t2))
+        ks.append(B.done(t4))
         # same kind on five lines
-        B = Builder("ovf" + tag, [("a", t), ("b", t)], label="overflow5" + t.name)
+        B = Builder("ovf" + tag, [("a", t), ("b", t)], label="overflow6" + t.name)
         t0 = B.let(Bin("+", a, b))
         t1 = B.let(Bin("-", a, b))
-        t2 = B.let(Bin("*", t0, t1))
-        t3 = B.let(Un("-", t2))
-        t4 = B.let(Bin("+", t3, a))
-        ks.append(B.done(t4))
+        t2 = B.let(Bin("*", a, b))
+        t3 = B.let(Un("-", t0))
+        t4 = B.let(Bin("+", t1, t3))
+        t5 = B.let(Bin("-", t2, t4))
+        ks.append(B.done(t5))
         # shifts, modulo, negation
         s = Arg("s", I32)
         B = Builder("shm" + tag, [("a", t), ("b", t), ("s", I32)], label="shiftmod" + t.name)
